@@ -125,14 +125,15 @@ Index(st, b, ix) ==
                        ELSE IF ix.i < 0 \/ ix.i >= Len(b.l) THEN Thr(st, RtErrV("range"))
                        ELSE Norm(st, b.l[ix.i + 1])
     [] b.t = "map"  -> Norm(st, MapGet(b.l, ix, 1))
-    [] b.t = "nil"  -> Thr(st, RtErrV("index"))
+    [] b.t \in {"nil", "int", "bool", "flt", "func"} -> Thr(st, RtErrV("index"))     \* no elements: an error of the operation (both operands have been evaluated)
     [] OTHER -> Norm(MarkOpen(st), OpenV)
 
 ----------------------------------------------------------------------------
 RECURSIVE EvalE(_, _, _), EvalSeq(_, _, _, _, _), EvalSeqT(_, _, _, _, _, _), EvalMap(_, _, _, _, _), CallV(_, _, _, _, _), Invoke(_, _, _),
           Apply(_, _, _), BindParams(_, _, _, _, _), RunDefers(_, _, _, _, _),
           Exec(_, _, _), ExecList(_, _, _, _), While(_, _, _, _), CFor(_, _, _, _), ForIn(_, _, _, _, _, _),
-          ElseIfs(_, _, _, _), Cases(_, _, _, _, _), CaseExprs(_, _, _, _, _, _), AssignAll(_, _, _, _, _, _), DefineAll(_, _, _, _, _, _)
+          ElseIfs(_, _, _, _), Cases(_, _, _, _, _), CaseExprs(_, _, _, _, _, _), AssignAll(_, _, _, _, _, _), DefineAll(_, _, _, _, _, _),
+          JumpThroughFinally(_, _, _)
 
 \* evaluate es[i..] left to right; stop at the first operand that does not complete normally
 EvalSeq(es, i, s, st, acc) ==
@@ -451,6 +452,13 @@ Cases(n, subj, ci, ns, st) ==
   IF ci > Len(n.cases) THEN (IF Len(n.d) = 1 THEN ExecList(n.d[1], 1, ns, st) ELSE Norm(st, NilV))
   ELSE CaseExprs(n, subj, ci, 1, ns, st)
 
+\* a try or catch block left by break / continue while a finally clause exists: the loop is left / continued in any case; under the reading
+\* "FinallyOnJump" the finally block runs first (an error or jump of its own replaces the pending one), otherwise it does not run
+JumpThroughFinally(n, ns, b) ==
+  IF "FinallyOnJump" \in Dev
+  THEN LET f == ExecList(n.f[1], 1, ns, b.st) IN IF f.o = "norm" THEN R(f.st, b.o, b.v) ELSE f
+  ELSE b
+
 Exec(n, s, st) ==
   CASE n.k = "expr" -> LET r == EvalE(n.e, s, st) IN IF r.o = "norm" THEN Norm(r.st, r.v) ELSE r
     [] n.k = "break" -> R(st, "brk", NilV)
@@ -515,12 +523,15 @@ Exec(n, s, st) ==
              caught == b.o = "thr" \/ ("TrySwallowsReturn" \in Dev /\ b.o = "ret") IN
          IF b.o = "fuel" THEN b
          ELSE IF IsSignal(b.o) /\ ~caught THEN
-              (IF Len(n.f) = 1 THEN R(MarkOpen(b.st), b.o, b.v) ELSE b)        \* finally on a control transfer: open
+              (IF Len(n.f) = 0 THEN b
+               ELSE IF b.o = "ret" THEN R(MarkOpen(b.st), b.o, b.v)             \* finally on a return: open
+               ELSE JumpThroughFinally(n, ns, b))                              \* break / continue: the jump itself is decided (C08); whether finally runs first is a reading (Dev)
          ELSE IF caught THEN
               LET ev == IF b.o = "thr" THEN b.v ELSE RtErrV("signal")
                   st2 == IF n.cv # "" THEN DefineIn(b.st, ns, n.cv, ev) ELSE b.st
                   c == ExecList(n.c, 1, ns, st2) IN
-              IF c.o # "norm" THEN (IF Len(n.f) = 1 /\ c.o # "thr" THEN R(MarkOpen(c.st), c.o, c.v) ELSE c)   \* an error raised by the catch block is uncaught: nothing after the
+              IF c.o # "norm" THEN (IF Len(n.f) = 1 /\ c.o \in {"brk", "cnt"} THEN JumpThroughFinally(n, ns, c)
+                                    ELSE IF Len(n.f) = 1 /\ c.o # "thr" THEN R(MarkOpen(c.st), c.o, c.v) ELSE c)   \* an error raised by the catch block is uncaught: nothing after the
                                                                                                    \* failing point runs, so finally does not; finally after a catch left by return/break/continue: open
               ELSE IF Len(n.f) = 1 THEN ExecList(n.f[1], 1, ns, c.st) ELSE Norm(c.st, OpenV)
          ELSE IF Len(n.f) = 1 THEN ExecList(n.f[1], 1, ns, b.st) ELSE Norm(b.st, OpenV)
